@@ -49,6 +49,9 @@ CONFIGS = {
     "no-model-construction": dict(n_chroms=2, extra=["--no_model_construction", "--count_exons", "--read_group", "tag:RG"]),
     # the reference as an ordinary gzip file (not BGZF): IsoQuant works on an uncompressed copy that it writes into the output folder
     "gz-reference": dict(n_chroms=2, extra=[], ref_gz=True),
+    # output folder and inputs given RELATIVE to the working directory of the first run; --resume is issued from another directory with an
+    # absolute -o (what the saved parameters hold must not depend on where the first run was started)
+    "relative-paths": dict(n_chroms=2, extra=[], relative=True),
     # many options away from their defaults, among them list-valued and derived ones: what .params stores is read back and every derived
     # setting is derived again by the resumed run
     "many-options": dict(n_chroms=2, extra=["--bam_tags", "RG,NM", "--matching_strategy", "precise", "--model_construction_strategy", "sensitive_ont",
@@ -101,6 +104,10 @@ def args_for(cfg, d, out, extra, saves=None):
         if not os.path.isdir(gzd):
             shutil.copytree(os.path.join(d, "gz"), gzd)
         a[a.index("-r") + 1] = os.path.join(gzd, "g.fa.gz")
+    if cfg.get("relative"):
+        for opt in ("-o", "--bam", "-r", "-g"):
+            if opt in a:
+                a[a.index(opt) + 1] = os.path.relpath(a[a.index(opt) + 1], d)
     if cfg.get("gz"):
         a.remove("--no_gzip")
     if saves:
@@ -117,7 +124,7 @@ def run(chk, scratch):
                 "directory of a -t 1 run, after .params was written; the run is killed (os._exit) immediately before it and continued with --resume (every second point with --threads 3); "
                 "quick: every distinct call site (function, operation, file kind) of 2 configurations once + random fill; thorough: every crash "
                 "point of every configuration + multi-process kills. non-trivial = distinct call sites crashed at")
-    conf_names = list(CONFIGS) if thorough else ["multi-chrom-groups-exons", "annotation-free", "force-over-previous-run", "from-saved-assignments", "two-experiments", "inferred-genes", "file-name-groups-one-file", "many-options", "no-model-construction", "gz-reference"]
+    conf_names = list(CONFIGS) if thorough else ["multi-chrom-groups-exons", "annotation-free", "force-over-previous-run", "from-saved-assignments", "two-experiments", "inferred-genes", "file-name-groups-one-file", "many-options", "no-model-construction", "gz-reference", "relative-paths"]
     if os.environ.get("VERIF_C07_CONFIGS"):       # debugging aid: restrict the run to some configurations (the verdict is then only about those)
         conf_names = [c for c in conf_names if c in os.environ["VERIF_C07_CONFIGS"].split(",")]
     total_points = 0
@@ -161,7 +168,7 @@ def run(chk, scratch):
             saves_src = os.path.join(d, "saving", pipeline.PREFIX, "aux")
             shutil.copytree(saves_src, os.path.join(d, "saves_clean"))
         r = runner.run_isoquant(args_for(cfg, d, clean, extra, saves=os.path.join(d, "saves_clean") if saves_src else None), os.path.join(d, "home"), mon=["crash"],
-                                cfg={"crash_root": clean}, events=ev)
+                                cfg={"crash_root": clean}, events=ev, cwd=d if cfg.get("relative") else None)
         if cfg.get("dirty") and r["rc"] == 0:
             # the tree every resumed run is compared with is the clean-folder run
             for rel, why in runner.compare_trees(os.path.join(ref_clean, pipeline.PREFIX), os.path.join(clean, pipeline.PREFIX))[:4]:
@@ -228,7 +235,8 @@ def run(chk, scratch):
             # every third crash point: the process dies immediately AFTER the mutation (a marker file exists, nothing written since has
             # been flushed), otherwise immediately before it
             r1 = runner.run_isoquant(args_for(cfg, d, out, extra, saves=sv), home, mon=["crash"],
-                                     cfg={"crash_root": out, "crash_at": n, "crash_after": after(n)}, events=os.path.join(d, "ev%d" % n))
+                                     cfg={"crash_root": out, "crash_at": n, "crash_after": after(n)}, events=os.path.join(d, "ev%d" % n),
+                                     cwd=d if cfg.get("relative") else None)
             r2 = None
             if r1["rc"] == 137:
                 # every second crash point is resumed with another thread count (the resume parser accepts --threads)
@@ -286,7 +294,7 @@ def run(chk, scratch):
                 return out, home, sv
             out, home, sv = prepared("count")
             evl = os.path.join(d, "ev_linecount")
-            rc_ = runner.run_isoquant(args_for(cfg, d, out, extra, saves=sv), home, mon=["crash"], cfg={"crash_root": out, "crash_lines": True}, events=evl, timeout=900)
+            rc_ = runner.run_isoquant(args_for(cfg, d, out, extra, saves=sv), home, mon=["crash"], cfg={"crash_root": out, "crash_lines": True}, events=evl, timeout=900, cwd=d if cfg.get("relative") else None)
             evs = runner.load_events(evl)
             total = max([e["n"] for e in evs if e["k"] == "line_total"] or [0])
             # in scope: after .params is COMPLETE, i.e. from the first file-system mutation that follows the opening of .params
@@ -314,7 +322,8 @@ def run(chk, scratch):
                 def one_line(k):
                     out, home, sv = prepared(str(k))
                     r1 = runner.run_isoquant(args_for(cfg, d, out, extra, saves=sv), home, mon=["crash"],
-                                             cfg={"crash_root": out, "crash_lines": True, "crash_line_at": k}, events=os.path.join(d, "evl%d" % k), timeout=900)
+                                             cfg={"crash_root": out, "crash_lines": True, "crash_line_at": k}, events=os.path.join(d, "evl%d" % k), timeout=900,
+                                             cwd=d if cfg.get("relative") else None)
                     r2 = None
                     site = "?"
                     if r1["rc"] == 137:
